@@ -63,8 +63,40 @@ fn list_digest(s: &GameState) -> u64 {
     h ^ (s.is_terminal().is_some() as u64)
 }
 
+/// Cold start: the very first engine calls of the process are made by several threads at once
+/// (nothing has been built, printed or hashed before), so any initialise-at-first-use state inside
+/// the engine is entered concurrently.  Every thread plays placements from the initial state and
+/// records a digest after each; the digests are compared with sequential re-execution afterwards.
+fn cold_start(seed: u64) {
+    let mut hs = vec![];
+    for t in 0..3u64 {
+        hs.push(thread::spawn(move || {
+            let mut x = seed.wrapping_mul(0x9E3779B97F4A7C15).wrapping_add(t * 7 + 3) | 1;
+            let mut s = GameState::initial();
+            let mut log: Vec<(Action, u64, u64)> = vec![];
+            for _ in 0..3 {
+                let va = s.valid_actions();
+                let a = va[(xorshift(&mut x) as usize) % va.len()];
+                s = s.take_action(&a);
+                log.push((a, s.transposition_hash(), list_digest(&s)));
+            }
+            log
+        }));
+    }
+    let logs: Vec<_> = hs.into_iter().map(|h| h.join().unwrap()).collect();
+    for log in logs {
+        let mut s = GameState::initial();
+        for (a, h, l) in log {
+            s = s.take_action(&a);
+            assert_eq!(s.transposition_hash(), h, "cold start: concurrent first use gave a different hash than sequential execution");
+            assert_eq!(list_digest(&s), l, "cold start: concurrent first use gave a different action list than sequential execution");
+        }
+    }
+}
+
 fn main() {
     let seed: u64 = std::env::args().nth(1).map(|s| s.parse().unwrap()).unwrap_or(1);
+    cold_start(seed);
     // the shared root is never queried before the threads start: the expected values are
     // computed on a separately rebuilt private copy
     let shared = Arc::new(root());
